@@ -29,7 +29,9 @@ class RawNode(Node):
         assert isinstance(self.token, RawToken)
         return (
             f"{{%{self.token.wc[0]} raw {self.token.wc[1]}%}}"
-            f"{self.text}"
+            # The text as it was written. `self.text` has been trimmed according to
+            # the markers printed around it, and would be trimmed again when read back.
+            f"{self.token.text}"
             f"{{%{self.token.wc[2]} endraw {self.token.wc[3]}%}}"
         )
 
